@@ -158,12 +158,15 @@ impl Cfg {
                    c.f_stable = 2 * t; c.f_decthr = t; }                                  // adaptive, slow
             _ => { c.f_factor = 20 * t; c.f_max = 5 * t; c.f_min = 2 * t; }               // non-adaptive, strong
         }
+        // per-second borrowing factors: coarse at DECIMALS = 1 (0.5 = the smallest value that gives a
+        // non-zero rate at 20 % usage), finer at DECIMALS = 2
+        let kb = if d >= 2 { u / 10 } else { u / 2 };
         match bp {
-            0 => { c.k_opt = 7 * t; c.k_base = fine.max(1); c.k_above = 4 * fine.max(1); c.b_skip = true; }
-            1 => { c.b_factor_l = 2 * fine.max(1); c.b_factor_s = 3 * fine.max(1); c.b_skip = false; }
+            0 => { c.k_opt = 7 * t; c.k_base = kb; c.k_above = 4 * kb; c.b_skip = true; }
+            1 => { c.b_factor_l = 2 * kb; c.b_factor_s = 3 * kb; c.b_skip = false; }
             2 => {}
-            3 => { c.k_opt = 5 * t; c.k_base = 2 * fine.max(1); c.k_above = fine.max(1); c.b_skip = false; c.ignore_oi = true; }
-            _ => { c.b_factor_l = fine.max(1); c.b_factor_s = fine.max(1); c.b_exp_l = 2 * u; c.b_exp_s = u; c.b_skip = true; }
+            3 => { c.k_opt = 5 * t; c.k_base = 2 * kb; c.k_above = kb; c.b_skip = false; c.ignore_oi = true; }
+            _ => { c.b_factor_l = kb; c.b_factor_s = kb; c.b_exp_l = 2 * u; c.b_exp_s = u; c.b_skip = true; }
         }
         match fe {
             0 => {}
